@@ -1,8 +1,8 @@
 """C05 — mutations through child views propagate to every enclosing view."""
 from hist import *  # noqa
 
-THEOREMS = ["C05_propagate", "C05_parent_reads_child", "C05_frame", "C05_container_child", "C05_vector_child", "C05_list_child", "C05_chain_get", "C05_chain_value", "C05_chain_set", "C05_cmd_on_chain", "C05_chain_observed", "C05_chain_nonvacuous"]
-PARTIAL = ["the model theorem is complete for hook chains of any depth (C05_cmd_on_chain: every mutating command through the bottom view of a chain of held views updates every enclosing view to its value with the nested slot replaced, or fails and changes nothing; C05_chain_get / C05_chain_value: chains arise from [i] / .field / value()). Not one theorem: the closure over arbitrary FORESTS of held views under arbitrary interleavings (a pop / union change in a parent makes the hooks of child views obtained earlier stale; the theorem applies to every view whose chain is valid at that moment) and that the Python closures are the hooks of the model: tied by the correspondence (random interleavings, element views obtained by index, iteration and slices)"]
+THEOREMS = ["C05_propagate", "C05_parent_reads_child", "C05_frame", "C05_container_child", "C05_vector_child", "C05_list_child", "C05_chain_get", "C05_chain_value", "C05_chain_set", "C05_cmd_on_chain", "C05_chain_observed", "C05_chain_nonvacuous", "C05_forest_init", "C05_forest_get", "C05_forest_value", "C05_forest_mutation", "C05_forest_keeps_valid", "C05_forest_observed", "C05_forest_nonvacuous"]
+PARTIAL = ["the model theorem is complete: for ANY forest of simultaneously held views (AllGood) a mutating command through any view whose hooks are valid (Valid) fails changing nothing or leaves every held view representing its specified tracked value (C05_forest_mutation, C05_forest_observed); obtaining views keeps the invariant (C05_forest_get / _value / C06_forest_copy); commands that shrink nothing keep every view usable (C05_forest_keeps_valid). Views made stale by a pop / union change in an ancestor are outside the premise. Not a theorem: that the Python closures are the hooks of the model — tied by the correspondence (random interleavings, element views obtained by index, iteration and slices)"]
 COQ_IMPORTS = ["RM.Types", "RM.ModelStore", "RMR.RunH"]
 COQ_FN = "RunH.run"
 COQ_CASE_TY = "RunH.case"
